@@ -13,12 +13,16 @@ from .replay_arrays import compare_array, snapshot, unchanged, gen_val, S_NUM
 PROBE_ALIAS = False   # C15: write into the result of a read and require the source unchanged
 
 
-def universe_of(vec, reverse_items=False):
+def universe_of(vec, reverse_items=False, rotate_items=False):
     u = vec["universe"]
     canon = u["canon"]
     items = {l: (its, root) for l, its, root in u["items"]}
     lens = [len(items[l][0]) for l in canon]
     subs = {l: (root, its) for l, (its, root) in items.items() if l not in canon}
+    if rotate_items:
+        # the same labels spelled by the item strings of their cyclic successors (see the "relabelled in place" run below)
+        n = dict(zip(canon, lens))
+        return Universe(canon, lens, subs, item_of=lambda l, i: f"{l}{i % n[l] + 1}")
     return Universe(canon, lens, subs, reverse_items=reverse_items)
 
 
@@ -203,10 +207,16 @@ def run_vector(vec):
     exp = vec["res"]
     U = universe_of(vec)
     problems = []
-    for mode, layout in (("sym", "C"), ("num", "C"), ("num", "F"), ("num", "R")):
+    Ubuild = None
+    for mode, layout in (("sym", "C"), ("num", "C"), ("num", "F"), ("num", "R"), ("num", "M")):
         if layout == "R":       # the same dimensions with their items listed in reversed order (same names, letters and item sets)
             U = universe_of(vec, reverse_items=True)
             layout = "C"
+        elif layout == "M":
+            # the array is built and read once, then the items of its OWN Dimension objects are renamed in place (every label
+            # now carries the string its cyclic successor had); keys spelled with the new strings must address the same entries
+            Ubuild = universe_of(vec)
+            U = universe_of(vec, rotate_items=True)
         if mode == "sym" and cfg["rhs"] == "nd" and not cfg["yd"]:
             # a 0-d object ndarray would be stored as an element by numpy (an artefact of the
             # object dtype); the 0-d region is covered by the numeric runs
@@ -215,17 +225,27 @@ def run_vector(vec):
             tag = f"[{mode}/{layout}/{sp_name}] "
             Poly.seed = None
             try:
-                x = U.array(cfg["xd"], U.gen_values(1, cfg["xd"], mode, gen_val, layout), name="x")
+                if layout == "M":
+                    x = Ubuild.array(cfg["xd"], Ubuild.gen_values(1, cfg["xd"], mode, gen_val, "C"), name="x")
+                    for l in cfg["xd"]:
+                        try:
+                            x[{l: Ubuild.item(l, Ubuild.labels(l)[0])}]
+                        except Exception:
+                            pass
+                    for l in cfg["xd"]:
+                        x.dims[l].items[:] = [U.item(l, i) for i in U.labels(l)]
+                else:
+                    x = U.array(cfg["xd"], U.gen_values(1, cfg["xd"], mode, gen_val, layout), name="x")
                 sx = snapshot(x)
                 rhs = None
                 nd = None
                 if cfg["rhs"] == "num":
                     rhs = Poly.gen(9, U.zero_tuple()) if mode == "sym" else S_NUM
                 elif cfg["rhs"] == "arr":
-                    rhs = U.array(cfg["yd"], U.gen_values(2, cfg["yd"], mode, gen_val, layout), name="y")
+                    rhs = U.array(cfg["yd"], U.gen_values(2, cfg["yd"], mode, gen_val, "C" if layout == "M" else layout), name="y")
                     srhs = snapshot(rhs)
                 elif cfg["rhs"] == "nd":
-                    nd = U.gen_values(2, cfg["yd"], mode, gen_val, layout)
+                    nd = U.gen_values(2, cfg["yd"], mode, gen_val, "C" if layout == "M" else layout)
                     rhs = nd
             except Exception as e:
                 return [f"MACHINERY: cannot build inputs: {e!r}"]
